@@ -24,6 +24,8 @@ void fmc_begin(void);                 // open the exploration window (thread 0)
 void fmc_end(void) __attribute__((noreturn));  // execution finished OK
 void fmc_fail(const char* fmt, ...) __attribute__((noreturn, format(printf, 1, 2)));
 void fmc_yield(void);                 // polite yield: cost-free choice point
+void fmc_atomic(int on);              // while on, the running kernel thread is never switched out (harness set-up only)
+int fmc_in_atomic(void);
 void fmc_wait_threads(void);          // thread 0: block until all other kernel threads exited
 void fmc_obs(uint64_t v);             // fold a value into the outcome hash
 void fmc_progress(void);              // tell the fair scheduler something changed
